@@ -312,6 +312,7 @@ class Doc:
         "isCollection": ["true", "false", "TRUE"],
         "kind": ["FEEL", "Java", "PMML", "feel"],
         "preferredOrientation": ["Rule-as-Row", "Rule-as-Column", "CrossTable", "x"],
+        "href": ["x y", "1", "\U0001F640", "-", ":", "://x/y#z", "#", "##", "http://c12.example/ns#_d1", "?q", "%41", "a:b"],
         "": ["x y", "1", "\U0001F640", "a.b", "feel:number", "-"],
     }
     BUILTIN_TYPES = ["number", "string", "Any", "feel:boolean"]
